@@ -8,6 +8,7 @@ import (
 	"strings"
 
 	"github.com/openconfig/ygot/verifharness/gen"
+	"verifsim/simrt"
 )
 
 // Op is one operation of a recorded history. Arguments are strings so that a replay
@@ -172,6 +173,9 @@ func (h *histProp) Run(seed uint64, tier string) *Result {
 	c := h.header(seed, tier)
 	v, st := h.exec(c, true)
 	res := &Result{Seed: seed, Pkg: c.Pkg, Faults: st.Faults, Probes: st.Probes, Steps: st.Steps, LogHash: hashLines(st.Trace)}
+	// the map-order decisions of the run itself (re-executions for reproduction and
+	// minimisation below add their own and happen once per signature and process)
+	res.Extra = map[string]any{"map_events": simrt.Main().MapEvents, "map_hash": fmt.Sprintf("%016x", simrt.Main().Hash)}
 	ops := make([]string, len(c.Ops))
 	kinds := map[string]bool{}
 	for i, o := range c.Ops {
